@@ -1456,7 +1456,10 @@ def render_coq(t):
         out.append('')
     out.append('Definition E : env := {|')
     out.append('  e_classes := [' + ';\n    '.join('C_' + c['name'] for c in t['classes']) + '];')
-    out.append('  e_enums := [' + ';\n    '.join('("%s", EV_%s)' % (e, e) for e in used_enums) + '] |}.')
+    # Schema.v v4: the environment carries tag tables for any-attribute items (none emitted yet)
+    v4 = 'e_tables' in (Path(__file__).resolve().parent.parent / 'coq' / 'theories' / 'Codec' / 'Schema.v').read_text()
+    out.append('  e_enums := [' + ';\n    '.join('("%s", EV_%s)' % (e, e) for e in used_enums) + ']'
+               + (';\n  e_tables := []' if v4 else '') + ' |}.')
     out.append('')
     out.append('(* the tag each class encodes itself with when constructed without a tag argument *)')
     out.append('Definition class_tags : list (string * Z) := [')
